@@ -197,36 +197,29 @@ fn c11_hr_seek_disables() {
 	forget(dig);
 }
 
-#[cfg(test)]
-mod native {
-	use super::*;
-
-	struct Chunked<'a>(&'a [u8], usize, usize);
-	impl<'a> Read for Chunked<'a> {
-		fn read(&mut self, buf: &mut [u8]) -> std::io::Result<usize> {
-			let n = buf.len().min(self.2).min(self.0.len() - self.1);
-			buf[..n].copy_from_slice(&self.0[self.1..self.1 + n]);
-			self.1 += n;
-			Ok(n)
+/// `Frag` for native runs: same choice points, values supplied by the replayed counterexample.
+/// Native twin of `c11_hr_feeds_exactly` (replay target: the harness's oracle is a stub).
+/// Same sequence of kani::any() values, real XXH3: the digest must be the one-shot XXH3-64 of
+/// exactly the bytes consumed.
+pub fn c11_twin_native() {
+	let data: [u8; 8] = kani::any();
+	let mut hr = VerifHashingReader::new(Frag { data: &data, pos: 0 }, true);
+	let a: usize = kani::any();
+	let b: usize = kani::any();
+	if a > 8 || b > 8 {
+		return;
+	}
+	let mut buf = [0u8; 8];
+	let mut consumed = 0;
+	if hr.read_exact(&mut buf[..a]).is_ok() {
+		consumed += a;
+		let mut buf2 = [0u8; 8];
+		if hr.read_exact(&mut buf2[..b]).is_ok() {
+			consumed += b;
+		} else {
+			consumed = 8;
 		}
 	}
-
-	/// Native twin of `c11_hr_feeds_exactly` (replay target: the harness's oracle lives in a
-	/// stub).  Real XXH3, short reads of 1, 3 and 7 bytes into larger buffers; the digest must be
-	/// the one-shot XXH3-64 of exactly the bytes consumed.
-	#[test]
-	fn c11_twin_native() {
-		let data: Vec<u8> = (0..=255u8).collect();
-		for chunk in [1usize, 3, 7, 64] {
-			let mut hr = VerifHashingReader::new(Chunked(&data, 0, chunk), true);
-			let mut a = vec![0u8; 50];
-			let mut b = vec![0u8; 150];
-			hr.read_exact(&mut a).unwrap();
-			hr.read_exact(&mut b).unwrap();
-			assert_eq!(&a[..], &data[..50]);
-			assert_eq!(&b[..], &data[50..200]);
-			let want = format!("xxh3:{:016x}", xxhash_rust::xxh3::xxh3_64(&data[..200]));
-			assert_eq!(hr.into_digest().unwrap(), want);
-		}
-	}
+	let want = format!("xxh3:{:016x}", xxhash_rust::xxh3::xxh3_64(&data[..consumed]));
+	assert!(hr.into_digest() == Some(want), "digest is not XXH3-64 of the bytes consumed");
 }
